@@ -39,6 +39,18 @@ func (v enumItemValue) String() string {
 	}
 }
 
+// comparable returns the value used for equality checks: strings are already
+// decoded, numbers are reduced to their normalised decimal expansion, so that
+// 1.5, 1.50 and 15e-1 denote the same item.
+func (v enumItemValue) comparable() enumItemValue {
+	if v.jsonType == jjson.TypeInteger || v.jsonType == jjson.TypeFloat {
+		if n, err := jjson.NewNumber(jbytes.Bytes(v.value)); err == nil {
+			v.value = n.String()
+		}
+	}
+	return v
+}
+
 func NewEnumItem(b jbytes.Bytes, c string) EnumItem {
 	i := EnumItem{src: b, comment: c}
 	b = b.TrimSpaces()
@@ -109,9 +121,9 @@ func (c *Enum) RuleName() string {
 }
 
 func (c Enum) Validate(a jbytes.Bytes) {
-	aa := NewEnumItem(a, "")
+	aa := NewEnumItem(a, "").comparable()
 	for _, b := range c.items {
-		if aa.enumItemValue == b.enumItemValue {
+		if aa == b.comparable() {
 			return
 		}
 	}
